@@ -90,7 +90,9 @@ Section GenRun.
 
   Definition g_finalize (cf : @config F) (st0 : @sstate F) (sts : list (@sstate F))
              (st1 : @sstate F) : option (list F) :=
-    Some (flat_map (enc_fnormal (cf_shape cf)) (finalize cf st0 sts st1)
+    (* st1 is the LAST STATE of a fixed-grid solve; solve_fixed_grid hands
+       interpolate_fwd_at_t1(st1).step_from to userfriendly_output *)
+    Some (flat_map (enc_fnormal (cf_shape cf)) (finalize cf st0 sts (state_at_t1 cf st1))
           ++ final_scale2 cf st1 (st_nsteps (last sts st0))).
 
   (* ---- C03: textbook RTS on the exact filtering states (specification) ---- *)
